@@ -6,33 +6,16 @@ concatenation. The fixed prelude and the appended runtime come from the translat
 -/
 import ZeepVerif.Model.Reader
 import ZeepVerif.Runtime.Prelude
+import ZeepVerif.Model.Text
 
 namespace ZeepVerif.Model
 open ZeepVerif.Inflector ZeepVerif.Generated
 
-def hexLower (n : Nat) : String := String.ofList (Nat.toDigits 16 n)
-
-/-- Rust `{:?}` of a `str` (`char::escape_debug_ext`, single quotes left alone). Exact for ASCII;
-    non-ASCII from U+00A0 up is taken as printable (an approximation, see DESIGN.md trusted base). -/
-def rustDebugStr (s : String) : String :=
-  let esc (c : Char) : String :=
-    if c == '\x00' then "\\0"
-    else if c == '\t' then "\\t"
-    else if c == '\r' then "\\r"
-    else if c == '\n' then "\\n"
-    else if c == '\\' then "\\\\"
-    else if c == '"' then "\\\""
-    else if c.toNat < 0x20 || c.toNat == 0x7f || (c.toNat ≥ 0x80 && c.toNat < 0xa0) || c.toNat == 0xad then
-      "\\u{" ++ hexLower c.toNat ++ "}"
-    else String.singleton c
-  "\"" ++ String.join (s.toList.map esc) ++ "\""
+/-- Rust `{:?}` of a `str` (see `Text.escChar`) -/
+def rustDebugStr (s : String) : String := String.ofList (Text.debugChars s.toList)
 
 /-- Rust `str::lines()` followed by `split('\r')` on every line -/
-def docLines (s : String) : List String :=
-  let pieces := s.splitOn "\n"
-  let pieces := if pieces.getLast? == some "" then pieces.dropLast else pieces
-  let stripCr (l : String) : String := if l.endsWith "\r" then (l.dropEnd 1).toString else l
-  (pieces.map stripCr).flatMap (fun l => l.splitOn "\r")
+def docLines (s : String) : List String := (Text.docLines s.toList).map String.ofList
 
 abbrev Chunks := List String
 
@@ -177,8 +160,6 @@ def writeNode (n : RNode) : Chunks :=
     | .complex cp => writeComplexType cp
     | .unsupported => []
 
-def replaceAll (s pat rep : String) : String := rep.intercalate (s.splitOn pat)
-
 /-- binding/writer.rs `write_soap_operation`; `none` = the `NodeNotFound` error of a part bound to an ignored node -/
 def writeSoapOperation (envelopeName : String) (env : Envelope) (tns : List Ns) : Except Err Chunks := do
   let xmlns : List (String × String) := ("soapenv", "http://schemas.xmlsoap.org/soap/envelope/") :: tns.map (fun n => (n.abbreviation, n.uri))
@@ -240,7 +221,7 @@ def writeSoapAction (operationName : String) (op : BindOp) (action : String) : C
   [ (match op.output with
      | some _ => "pub async fn " ++ fnName ++ "(req: " ++ req ++ ", credentials: Option<(String, String)>) -> error::SoapResult<" ++ operationName ++ "OutputEnvelope> {\n"
      | none => "pub async fn " ++ fnName ++ "(req: " ++ req ++ ", credentials: Option<(String, String)>) -> error::SoapResult<()> {\n"),
-    "    let url = \"" ++ action ++ "\";\n",
+    "    let url = " ++ rustDebugStr action ++ ";\n",
     (match op.output with
      | some _ => "    helpers::send_soap_request(url, credentials, req).await\n"
      | none => "    helpers::send_soap_request::<_, helpers::NoResponse, _, _>(url, credentials, req).await.map(|_| ())\n"),
@@ -250,7 +231,7 @@ def writeSoapAction (operationName : String) (op : BindOp) (action : String) : C
 def writeBinding (b : Binding) : Except Err Chunks := do
   let mut out : Chunks := []
   for (opName, op) in b.ops do
-    out := out ++ ["\n/* " ++ replaceAll (replaceAll opName "*/" "* /") "/*" "/ *" ++ " */\n\n"]
+    out := out ++ ["\n/* " ++ String.ofList (Text.commentText opName.toList) ++ " */\n\n"]
     let pascal := xmlNameToRustName opName
     out := out ++ (← writeSoapOperation (pascal ++ "InputEnvelope") op.input b.tns)
     if let some o := op.output then
@@ -279,7 +260,7 @@ def writeService (s : Service) : Chunks :=
   [ "pub struct " ++ name ++ " {\n", "    pub client: reqwest::Client,\n", "    pub location: String,\n",
     "    pub credentials: Option<(String, String)>,\n", "}\n",
     "impl " ++ name ++ " {\n", "    pub fn new(credentials: Option<(String, String)>) -> Self {\n", "        Self {\n",
-    "            client: reqwest::Client::new(),\n", "            location: \"" ++ s.location ++ "\".to_string(),\n",
+    "            client: reqwest::Client::new(),\n", "            location: " ++ rustDebugStr s.location ++ ".to_string(),\n",
     "            credentials,\n", "        }\n", "    }\n" ]
   ++ s.binding.ops.flatMap (fun (n, op) => writeAsyncSoapCall n op)
   ++ ["}\n"]
